@@ -198,6 +198,11 @@ static void run() {
     else if (c == "fieldat") { int64_t k = nint(); ContentPtr x = pop();
       if (RecordArray* r = dynamic_cast<RecordArray*>(x.get())) stack.push_back(r->field(k));
       else throw std::runtime_error("akrun: fieldat on a non-record node"); }
+    else if (c == "unionproject") { int64_t k = nint(); ContentPtr x = pop();
+      if (UnionArray8_64* r = dynamic_cast<UnionArray8_64*>(x.get())) stack.push_back(r->project(k));
+      else if (UnionArray8_32* r = dynamic_cast<UnionArray8_32*>(x.get())) stack.push_back(r->project(k));
+      else if (UnionArray8_U32* r = dynamic_cast<UnionArray8_U32*>(x.get())) stack.push_back(r->project(k));
+      else throw std::runtime_error("akrun: unionproject on a non-union node"); }
     else if (c == "mergeunion") { ContentPtr b = pop(); ContentPtr a = pop(); stack.push_back(a.get()->merge_as_union(b)); }
     else if (c == "merge") { ContentPtr b = pop(); ContentPtr a = pop(); stack.push_back(a.get()->merge(b)); }
     else if (c == "mergemany") { int64_t k = nint(); ContentPtrVec cs((size_t)k); for (int64_t j = k - 1; j >= 0; j--) cs[(size_t)j] = pop(); ContentPtr a = pop(); stack.push_back(a.get()->mergemany(cs)); }
